@@ -123,6 +123,17 @@ class Selector:
         body = [s for s in fi.node.body if not (isinstance(s, ast.Expr) and isinstance(s.value, ast.Constant))]
         results: List[Alt] = []
 
+        def walk_gen(stmts: List[ast.stmt]):
+            # a generator whose body is one loop yielding selected elements
+            loops = [st for st in stmts if isinstance(st, ast.For)]
+            others = [st for st in stmts if not isinstance(st, (ast.For, ast.Assign, ast.AnnAssign, ast.Expr, ast.Pass))]
+            if len(loops) != 1 or others or any(isinstance(n, ast.Return) and n.value is not None for n in walk_local(fi.node)):
+                raise AnalysisError(f'{fi.fq}: selection: generator is not a single filtering loop')
+            env: Dict[str, List[Alt]] = {'$yield': [(True, False, '', ())]}
+            self._loop(fi, loops[0], subst, env)
+            for c, p, src, kinds in env['$yield']:
+                results.append((c, p, src, kinds))
+
         def walk(stmts: List[ast.stmt], cond, env: Dict[str, List[Alt]]):
             for i, st in enumerate(stmts):
                 if isinstance(st, ast.If):
@@ -160,7 +171,13 @@ class Selector:
                     continue
                 raise AnalysisError(f'{fi.fq}: selection: unsupported statement {norm(st)[:50]}')
             raise AnalysisError(f'{fi.fq}: selection: a path falls off the end')
-        walk(body, True, {})
+        is_gen = any(isinstance(n, (ast.Yield, ast.YieldFrom)) for n in walk_local(fi.node))
+        if is_gen:
+            if any(isinstance(n, ast.YieldFrom) for n in walk_local(fi.node)):
+                raise AnalysisError(f'{fi.fq}: selection: yield from')
+            walk_gen(body)
+        else:
+            walk(body, True, {})
         return [r for r in results if r[0] is not False]
 
     def loop_predicates(self, fi: FuncInfo, loop: ast.For, subst) -> Dict[str, Tuple[object, str]]:
@@ -182,6 +199,10 @@ class Selector:
                         and st.value.func.attr == 'append' and isinstance(st.value.func.value, ast.Name) and len(st.value.args) == 1:
                     acc = st.value.func.value.id
                     appended.setdefault(acc, []).append((cond, self.elt_kind(st.value.args[0], loop.target)))
+                    continue
+                if isinstance(st, ast.Expr) and isinstance(st.value, ast.Yield) and st.value.value is not None:
+                    # a generator: yielding an element is appending it to the (implicit) result
+                    appended.setdefault('$yield', []).append((cond, self.elt_kind(st.value.value, loop.target)))
                     continue
                 if isinstance(st, ast.Pass):
                     continue
